@@ -245,4 +245,76 @@ theorem k_newPoly_eq (gf : Gen.K04b.GenericGF) (cs : List Nat) :
           rw [List.getElem?_eq_none (by omega)]
           rfl
 
+
+/-! ### BuildMonomial, MultiplyByMonomial, MultiplyBy -/
+
+when_kernel Gzx.Gen.K04b.gfBuildMonomial in
+/-- `GenericGF.BuildMonomial(degree, coefficient)` = the model's `buildMonomial` (`degree ≥ 0`): the zero polynomial for
+    coefficient 0, `coefficient·x^degree` otherwise -/
+theorem k_gfBuildMonomial_eq (F : GF.GF) (deg coeff : Nat) :
+    Gen.K04b.gfBuildMonomial (fieldRec F) deg coeff = expE [] ints (buildMonomial deg coeff) := by
+  simp only [Gen.K04b.gfBuildMonomial, buildMonomial, natCast_beq_zero]
+  have hd : decide ((deg : Int) < 0) = false := by apply decide_eq_false; omega
+  simp only [hd, Bool.false_eq_true, if_false]
+  by_cases hc : coeff = 0
+  · subst hc; rfl
+  · simp only [beq_eq_false_iff_ne.mpr hc, Bool.false_eq_true, if_false, hc]
+    rw [mk_words _ (deg + 1) (by omega)]
+    simp only [tryR_ok]
+    rw [setIdx_words _ _ _ 0 coeff (by rfl) (by rfl)]
+    have : Bits.setWord (List.replicate (deg + 1) 0) 0 coeff = .ok (coeff :: List.replicate deg 0) := by
+      unfold Bits.setWord; simp [List.replicate_succ]
+    rw [this]
+    simp only [Except.map, tryR_ok]
+    rw [k_newPoly_eq]
+    cases mkPoly (coeff :: List.replicate deg 0) with
+    | ok v => rfl
+    | error e => cases e <;> rfl
+
+/-- what the fill loop of MultiplyBy / MultiplyByMonomial computes -/
+theorem fill_loop (F : GF.GF) (hF : TablesOK F) (p : List Nat) (s tailLen : Nat)
+    {body : Int → List Int → Ctl (List Int) ρ} {n : Nat} {i0 : Int} {st : List Int}
+    (hst : st = ints (List.replicate (p.length + tailLen) 0)) (hn : n = p.length) (hi : i0 = 0)
+    (hb : ∀ j (hj : j < p.length) (t : List Nat), body ((0 + j : Nat) : Int) (ints t) =
+      mapS ints (mapStep (fun c => F.mul c s) (0 + j) p[j] t)) :
+    loop body 1 n i0 st = mapS ints (stepC ((p.mapM (fun c => F.mul c s)).map (fun ms => ms ++ List.replicate tailLen 0))) := by
+  rw [loop_list' ints (mapStep (fun c => F.mul c s)) p 0 (List.replicate (p.length + tailLen) 0) hst hn (by omega) hb]
+  have := iterL_map (ρ := ρ) (fun c => F.mul c s) tailLen p []
+  simp only [List.length_nil, List.nil_append] at this
+  rw [this]
+
+when_kernel Gzx.Gen.K04b.polyMultiplyByMonomial in
+/-- `MultiplyByMonomial(degree, coefficient)` = the model's `multiplyByMonomial` (`degree ≥ 0`) -/
+theorem k_polyMultiplyByMonomial_eq (F : GF.GF) (hF : TablesOK F) (p : List Nat) (deg coeff : Nat) :
+    Gen.K04b.polyMultiplyByMonomial (fieldRec F) (ints p) deg coeff = expE [] ints (multiplyByMonomial F p deg coeff) := by
+  simp only [Gen.K04b.polyMultiplyByMonomial, multiplyByMonomial, natCast_beq_zero, len_ints]
+  have hd : decide ((deg : Int) < 0) = false := by apply decide_eq_false; omega
+  simp only [hd, Bool.false_eq_true, if_false]
+  by_cases hc : coeff = 0
+  · subst hc; rfl
+  · simp only [beq_eq_false_iff_ne.mpr hc, Bool.false_eq_true, if_false, hc]
+    rw [mk_words _ (p.length + deg) (by omega)]
+    simp only [tryR_ok]
+    rw [fill_loop F hF p coeff deg rfl (by rw [tripUp_one]; omega) rfl (fun j hj t => by
+      rw [idx_ints _ _ (0 + j) rfl, Nat.zero_add, List.getElem?_eq_getElem hj]
+      simp only [tryC_ok, mapStep]
+      rw [k_gfMultiply_eq F hF]
+      cases F.mul p[j] coeff with
+      | error e => rfl
+      | ok m =>
+        simp only [Except.map, tryC_ok, Int.ofNat_eq_natCast]
+        rw [setIdx_words _ _ _ j m (by rfl) (by rfl)]
+        cases Bits.setWord t j m <;> rfl)]
+    simp only [bind, Except.bind]
+    cases hm : p.mapM (fun c => F.mul c coeff) with
+    | error e =>
+      simp only [Except.map, stepC_error, mapS_panic, panic_thenR]
+      exact (expE_of_panic _ _ (mapM_error (fun x e h => mul_error h) _ _ hm)).symm
+    | ok ms =>
+      simp only [Except.map, stepC_ok, mapS_next, next_thenR]
+      rw [k_newPoly_eq]
+      cases mkPoly (ms ++ List.replicate deg 0) with
+      | ok v => rfl
+      | error e => cases e <;> rfl
+
 end Gzx.Obligations.K04bPoly
